@@ -212,7 +212,21 @@ def rule_label(ctx: Ctx) -> RuleReport:
     if loops and isinstance(loops[0].iter, ast.Call) and isinstance(loops[0].iter.func, ast.Name) and isinstance(loops[0].target, ast.Name):
         it = loops[0].iter
         kw = {k.arg: norm(k.value) for k in it.keywords}
-        good_loop = it.func.id == v_ext and len(it.args) == 1 and norm(it.args[0]) == v_bytes and kw == {"path": v_path} and norm(loops[0].body[0]) == f"yield {loops[0].target.id}"
+        tv = loops[0].target.id
+        lb = loops[0].body
+        yields = [st for st in lb if norm(st) == f"yield {tv}"]
+        exits = [x for st in lb for x in ast.walk(st) if isinstance(x, (ast.Continue, ast.Break, ast.Return, ast.Raise))]
+        rebinds = [x for st in lb for x in ast.walk(st) if isinstance(x, (ast.Assign, ast.AugAssign)) and any(isinstance(t, ast.Name) and t.id == tv for t in (x.targets if isinstance(x, ast.Assign) else [x.target]))]
+        good_loop = it.func.id == v_ext and len(it.args) == 1 and norm(it.args[0]) == v_bytes and kw == {"path": v_path} and len(yields) == 1 and not exits and not rebinds
+        # the member's label is derived from the member name alone (no lookup on the host): populate_from_path(<label>, resolve=False)
+        relabel = [c for st in lb for c in ast.walk(st) if isinstance(c, ast.Call) and isinstance(c.func, ast.Attribute) and c.func.attr == "populate_from_path"]
+        lexical = [c for c in relabel if c.args and norm(c.args[0]) == v_path and any(k.arg == "resolve" and isinstance(k.value, ast.Constant) and k.value.value is False for k in c.keywords)
+                   and norm(c.func.value) == f"{tv}.get_metadata()"]
+        before_yield = bool(lexical) and bool(yields) and lexical[0].lineno < yields[0].lineno
+        if lexical and before_yield and len(relabel) == len(lexical):
+            rep.ok({"_process_archive_entry": "member results are labelled lexically (resolve=False) before they are yielded"})
+        else:
+            rep.fail(Finding("C10-LABEL", ARCH, pe.qual, "member label resolved on the host", "the results of a member keep the label computed by populate_from_path(<member name>) with resolve=True: a relative member name is resolved against the working directory of the host (and against files that happen to exist there), so the same archive bytes give different file_path / folder_path on different hosts", line=loops[0].lineno))
     if good_loop:
         rep.ok({"_process_archive_entry": "yields every result of extractor(file_bytes, path=full_path)"})
     else:
